@@ -56,7 +56,7 @@ def gen(ctx: common.Ctx, n_hist: int, steps: tuple[int, int], explore: bool = Fa
     """core (explore=False): seed-independent histories over ALL edit operators (known daemon defects are listed per
     history+step); exploration (explore=True): VERIF_SEED-dependent histories in the sub-space where the unchanged
     tree has been silent over seed sweeps (content edits, cycle-free import graph, imports followed)."""
-    tag = ("C03x", ctx.seed) if explore else ("C03", "core")
+    tag = ("C03x", ctx.seed) if explore else ("C03", "core" if ctx.tier == "quick" else "tcore")
     for k in range(n_hist):
         r = common.rng_for(*tag, "h", k)
         n = r.randint(*steps)
@@ -76,7 +76,7 @@ def gen(ctx: common.Ctx, n_hist: int, steps: tuple[int, int], explore: bool = Fa
         yield {"fn": "vlib.tasks.daemon:run_history",
                "args": {"versions": h["versions"], "flags": flags, "targets": targets, "modes": modes,
                         "consistency": ctx.tier == "thorough" and k % 5 == 0, "mtime_back": h["mtime_back"]},
-               "_k": ("x" if explore else "core") + str(k), "_ops": h["ops"], "_follow": follow, "_explore": explore}
+               "_k": ("x" if explore else "core" if ctx.tier == "quick" else "tcore") + str(k), "_ops": h["ops"], "_follow": follow, "_explore": explore}
 
 
 def gen_corpus(ctx: common.Ctx, n: int) -> Iterator[dict[str, Any]]:
